@@ -33,9 +33,7 @@ pub open spec fn indiv_shape_ok(b: ArrB, dims: Seq<usize>) -> bool { b.dims@ == 
 pub open spec fn indiv_coefs_ok(ca: Seq<Seq<T>>, cb: Seq<Seq<T>>, kk: Seq<Seq<T>>, x: Seq<T>, y: Seq<Seq<T>>, brow: Seq<RowBoundary<T>>, n: int, nl: int) -> bool {
     &&& kk.len() == n
     &&& forall|j: int| 0 <= j < nl ==> lane_ok(#[trigger] colv(kk, j), x, colv(y, j), brow[j])
-    &&& forall|i: int, j: int| 0 <= i < n - 1 && 0 <= j < nl ==>
-            (#[trigger] ca[i][j])@ == kk[i][j]@ * (x[i + 1]@ - x[i]@) - (y[i + 1][j]@ - y[i][j]@)
-            && cb[i][j]@ == (y[i + 1][j]@ - y[i][j]@) - kk[i + 1][j]@ * (x[i + 1]@ - x[i]@)
+    &&& forall|i: int, j: int| 0 <= i < n - 1 && 0 <= j < nl ==> coef_pair_ok(#[trigger] ca[i][j], cb[i][j], kk, x, y, i, j)
 }
 pub open spec fn coef_pair_ok(a: T, b: T, kk: Seq<Seq<T>>, x: Seq<T>, y: Seq<Seq<T>>, i: int, j: int) -> bool {
     a@ == kk[i][j]@ * (x[i + 1]@ - x[i]@) - (y[i + 1][j]@ - y[i][j]@) && b@ == (y[i + 1][j]@ - y[i][j]@) - kk[i + 1][j]@ * (x[i + 1]@ - x[i]@)
